@@ -555,8 +555,21 @@ def c18(tier, replay=None):
         info = {"records": 1, "worker": {"inputs": 1}}
     else:
         pv.write_ndjson(chk.work / "in.ndjson", ill)
-        p = pv.pv(["c18", "--in", chk.work / "in.ndjson", "--out", trace, "--mutants", 300000 if T else 12000], timeout=7200)
-        info = json.loads(p.stdout.strip().splitlines()[-1])
+        nsh = 12
+        jobs = [(["c18", "--in", chk.work / "in.ndjson", "--out", chk.work / f"trace_{s}.ndjson", "--mutants", 240000 if T else 12000,
+                  "--shard", s, "--shards", nsh], None) for s in range(nsh)]
+        res = pv.pv_parallel(jobs, timeout=14400)
+        info = {"records": 0, "aborts": 0, "worker": {"inputs": 0, "outcomes_last_worker": {}}}
+        with open(trace, "w") as f:
+            for s, p in enumerate(res):
+                j = json.loads(p.stdout.strip().splitlines()[-1])
+                info["records"] += j.get("records", 0)
+                info["aborts"] += j.get("aborts", 0)
+                info["worker"]["inputs"] += j.get("worker", {}).get("inputs", 0)
+                for k, v in j.get("worker", {}).get("outcomes_last_worker", {}).items():
+                    info["worker"]["outcomes_last_worker"][k] = info["worker"]["outcomes_last_worker"].get(k, 0) + v
+                f.write((chk.work / f"trace_{s}.ndjson").read_text())
+                (chk.work / f"trace_{s}.ndjson").unlink()
     st = batch_check(chk, "Trace_C18", trace, lambda rj, rec: {"why": rj["why"], "file": rj.get("loc", ""), "op": rj.get("op", "")},
                      lambda rj, rec: {"record": {k: v for k, v in rec.items() if k != "sys"}, "tlc": rj}, shards=14)
     ninputs = info.get("worker", {}).get("inputs", st["records"])
